@@ -28,7 +28,7 @@ PROPS = {
             'function contracts on the memory wrappers (CBMC, loop-free) + bounded CBMC harness over all placements inside one arena'),
     'C09': ('model_checking', 'Bounded: the pre-scan of each of the 20 delegating entry points against a reference scanner of the directive grammar (libc formatter as assumed contract whose requires clause is "no %n directive"), all formats <= 5 characters over a 9-letter alphabet; the narrow engine with one concrete format per run incl. every %n spelling.',
             'requires-clause on the assumed libc formatter contract checked at every call site (bounded CBMC); concrete-format runs of the real engine'),
-    'C10': ('proof', 'Unbounded (loop contracts, exact-fit objects of symbolic size): strnlen_s, wcsnlen_s, strfirstchar_s, strlastchar_s, str{first,last}{diff,same}_s with the returned index/pointer as witness, memcmp_s (0 => equal, value range, sign at index 0), strcmpfld_s (0 => fields equal at every index), strcmp_s / strcasecmp_s / strprefix_s (answer at index 0 as unsigned char / upper-cased, value range, result 0 on failure; the position of the first difference is a witness they do not return), strspn_s / strcspn_s / strpbrk_s (nested loops: count / pointer inside dmax, every element before it non-NUL, behaviour against the first element of src; membership in the rest of src needs a witness inside src); bounded: 34 query functions on exact-fit operands of <= 5 elements against reference loops (answer, operands unmodified), all contents/sizes/flags.',
+    'C10': ('proof', 'Unbounded (loop contracts, exact-fit objects of symbolic size): strnlen_s, wcsnlen_s, strfirstchar_s, strlastchar_s, str{first,last}{diff,same}_s with the returned index/pointer as witness, memcmp_s (0 => equal, value range, sign at index 0), strcmpfld_s (0 => fields equal at every index), strcmp_s / strcasecmp_s / strprefix_s (answer at index 0 as unsigned char / upper-cased, value range, result 0 on failure; the position of the first difference is a witness they do not return), strspn_s / strcspn_s / strpbrk_s (nested loops: count / pointer inside dmax, every element before it non-NUL, behaviour against the first element of src; membership in the rest of src needs a witness inside src); loop-free full-domain contracts modulo the callee contracts: memchr_s, memrchr_s (libc memchr/memrchr assumed), strchr_s (strnlen_s contract as proved by A.strnlen_s + libc memchr assumed) - found and not-found cases complete; bounded: 34 query functions on exact-fit operands of <= 5 elements against reference loops (answer, operands unmodified), all contents/sizes/flags.',
             'ensures clauses over ghost indices under loop contracts; bounded CBMC harnesses with reference functions; pointer obligations on exact-fit objects'),
     'C11': ('model_checking', 'Bounded: the real engine behind sprintf_s/snprintf_s with one concrete format per run (34 formats) and symbolic arguments against a reference renderer of the C11 rules for d i u x X o c s %; float conversions not applicable.',
             'bounded CBMC runs of the real formatter against a specification renderer written in the harness'),
